@@ -88,6 +88,45 @@ macro_rules! parts {
 
 static SYS: LockStep = LockStep { property: "C17", probes: true, seed: None };
 
+/// the core of the save / restore interplay, twice as deep
+fn alpha_core(cfg: &Cfg) -> Vec<Op> {
+    let rows = cfg.rows as u32;
+    vec![
+        c(Decsc),
+        c(Decrc),
+        c(DecSet(vec![1049])),
+        c(DecRst(vec![1049])),
+        c(DecSet(vec![1047])),
+        c(DecRst(vec![1047])),
+        c(Cup(Some(99), Some(99))),
+        c(Cup(None, None)),
+        t("a"),
+        c(sgr1(41)),
+        c(DecSet(vec![6])),
+        c(DecRst(vec![7])),
+        c(Decstbm(Some(2), Some(rows))),
+        c(Decstr),
+        Op::resize(cfg.cols.max(2) - 1, cfg.rows.max(2) - 1),
+        Op::resize(cfg.cols, cfg.rows),
+    ]
+}
+
+fn core_part(tier: Tier) -> Part<'static, LockStep> {
+    Part {
+        name: "save-restore-core-deep",
+        sys: &SYS_MODES,
+        cfgs: match tier {
+            Tier::Quick => cfgs(&[(2, 3)], &[None]),
+            Tier::Thorough => cfgs(&[(2, 3), (3, 3), (2, 2)], &[None]),
+        },
+        alphabet: &alpha_core,
+        depth: tier.pick(7, 9),
+        seconds: tier.pick(20.0, 1800.0),
+        validated: true,
+        nontrivial: Some("lockstep_transitions"),
+    }
+}
+
 static SYS_MODES: LockStep = LockStep { property: "C17", probes: false, seed: None };
 
 /// Far positions: save and restore at rows / columns around every power-of-two and type
@@ -211,6 +250,7 @@ pub fn run(ctx: &Ctx) -> Report {
     if ctx.tier == Tier::Quick {
         run_part(ctx, &mut rep, &shallow_part(ctx.tier));
     }
+    run_part(ctx, &mut rep, &core_part(ctx.tier));
     run_part(ctx, &mut rep, &super::sweep::mode_part(&SYS_MODES, ctx.tier));
     super::sweep::mode_number_sweep(ctx, &mut rep, &SYS_MODES);
     far_positions(ctx, &mut rep);
@@ -223,6 +263,9 @@ pub fn replay(ctx: &Ctx, v: &Value) -> bool {
     let tier = if v["tier"] == "thorough" { Tier::Thorough } else { Tier::Quick };
     if v["part"] == "save-restore-lockstep-3x3" {
         return replay_part(ctx, &shallow_part(Tier::Quick), v);
+    }
+    if v["part"] == "save-restore-core-deep" {
+        return replay_part(ctx, &core_part(tier), v);
     }
     if v["part"] == "far-positions" {
         let mut rep = Report::new();
